@@ -73,6 +73,26 @@ PROPS = {
             "the loop's random tie-break is exercised by seeds and schedules; the model allows both outcomes",
         ],
     },
+    "C04": {
+        "modules": ["Hannibal.Props.C04", "Hannibal.Props.C04Current"],
+        "theorems": ["Hannibal.C04_holds", "Hannibal.C04_current", "Hannibal.wellWired04_current"],
+        "cases": {"quick": {"C04": 1500}, "thorough": {"C04": 20000, "C02": 3000, "C17": 3000}},
+        "assumptions": COMMON_ASSUMPTIONS + [
+            "drain-barrier clauses (monC04q: sends acknowledged before the first stop request are handled; nothing "
+            "submitted after an accepted stop returned is handled and its call errs; graceful end by quiescence) "
+            "are judged on real traces only",
+        ],
+    },
+    "C17": {
+        "modules": ["Hannibal.Props.C17", "Hannibal.Props.C17Current"],
+        "theorems": ["Hannibal.C17_holds", "Hannibal.C17_current"],
+        "cases": {"quick": {"C17": 1500}, "thorough": {"C17": 20000, "C04": 3000}},
+        "assumptions": COMMON_ASSUMPTIONS + [
+            "when None is allowed and that a join with the slot resolves only after termination (monC17n) are judged on real traces only",
+            "a second join that finds the join slot already taken returns None at once (interpretation of 'later joins yield None')",
+            "detach / strong-handle behaviour of OwningAddr: covered by C05/C15 handle tables (owning is a strong kind)",
+        ],
+    },
     "C12": {
         "modules": ["Hannibal.Props.C12"],
         "theorems": ["Hannibal.C12_holds", "Hannibal.C12_current", "Hannibal.C12_state",
